@@ -197,6 +197,18 @@ CLAIMED["C14"] = dict(
           "depends on the claimed length may end out-of-energy instead of trapping. Exact remaining energy is not compared (only per-call lower bounds and budget monotonicity). Call-depth limit not exercised."),
     ref="4 C14")
 
+CLAIMED["C12"] = dict(
+    engine="base",
+    technique="TLA+ spec EncAmount (encrypted balance as carry-free chunk sums; Deposit / Transfer / SecToPub state machine; conservation, no overdraft, decrypt-inverts-encrypt checked by TLC for all amounts of the scaled model); simulated behaviours replayed with real ElGamal keys on encrypted_transfers with chunk-boundary amounts and per-field tampering",
+    text=("EncAmount.tla models an account's encrypted balance as the pair of chunk sums that aggregation produces without carry, decryption as table lookup per chunk and recombination, and transfers as enabled iff the "
+          "amount does not exceed the decrypted balance; TLC checks for every amount at chunk widths 2 and 3 that the chunk sums denote the balance, decryption inverts encryption, remaining + transferred = balance and no "
+          "overdraft. Behaviours of four operations are replayed with amounts embedded chunk-wise into u64 (0, 1, 2^32-2, 2^32-1 per chunk, hence 2^32 +- 1 and 2^64-1): encrypt / encrypt_with_fixed_randomness / aggregate "
+          "/ decrypt_amount must give the sums, make_transfer_data and make_sec_to_pub_transfer_data must return a value iff amount <= balance, the data must verify, remaining and transferred parts must decrypt to amounts "
+          "summing to the balance, and verification must fail under each tamper field of the specification (each ciphertext chunk, index, keys, balance, proof bytes)."),
+    note=("The embedding is not additive, so expected sums are computed by the harness from the rules TLC checked; the model's own verdict is compared while the balance is a single embedded amount. The aggregation index is "
+          "not part of the proof (documented in the code): tampering with it is replayed as the verifier deriving a different balance. Chunk sums beyond 2^33 are outside the property. 36 transfer scenarios quick."),
+    ref="4 C12")
+
 NOT_YET = {
 }
 
